@@ -540,6 +540,9 @@ func (dht *FullRT) GetClosestPeers(ctx context.Context, key string) ([]peer.ID, 
 	// filtered out by the diversity filter. Multiple calls to ClosestN are
 	// expensive, but increasing the `count` parameter is cheap.
 	step := dht.bucketSize + 2*dht.ipDiversityFilterLimit
+	if step <= 0 {
+		return nil, fmt.Errorf("fullrt: invalid configuration: bucket size %d, ip diversity filter limit %d", dht.bucketSize, dht.ipDiversityFilterLimit)
+	}
 	for nClosest := 0; nClosest < dht.rt.Size(); nClosest += step {
 		// Get the last `step` closest peers, because we already tried the `nClosest` closest peers
 		closestKeys := kademlia.ClosestN(kadKey, dht.rt, nClosest+step)[nClosest:]
